@@ -656,3 +656,32 @@ def range_last_id(R, ctx, rid):
         for cs, site in ordinal_sites(users):
             R.ob(rid, cs.fn, site, False, "relies on Block::last_id / BlockRange::last_id, which is one past the end for GC and Skip blocks", cs.loc())
         R.ob(rid, br, "no-users", not users, "no code relies on the exclusive last_id of ranges: %d call site(s)" % len(users))
+
+
+def first_last_table(R, ctx, rid):
+    """ItemContent::get_first / get_last per kind."""
+    Y = ctx.yrs
+    R.rule(rid, "R-TABLE single-value accessors of ItemContent: get_last — what Map::get, Branch::get and links to map entries read — takes "
+                "`last()` of the multi-element kinds (Any, JSON) and get_first takes `first()`; both answer None exactly for Deleted "
+                "and Format; every other kind answers Some (kinds_reaching per call / per None). A map entry's block can hold "
+                "several values after squashing: the entry's value is the last one")
+    for name, pick, other in (("get_last", "last", "first"), ("get_first", "first", "last")):
+        fn = Y.fn("yrs::block::ItemContent::" + name)
+        picks = [c for c in fn.calls() if re.search(r"^<\[T\]>::%s$" % pick, F.strip_generics(c.name))]
+        wrong = [c for c in fn.calls() if re.search(r"^<\[T\]>::%s$" % other, F.strip_generics(c.name))]
+        kinds = set()
+        for c in picks:
+            ks, used = kinds_reaching(Y, fn, c.bb, place_hint=None)
+            if used:
+                kinds |= ks
+        R.ob(rid, fn, "multi-element", kinds == {"Any", "JSON"} and not wrong,
+             "%s() of Any and JSON" % pick if kinds == {"Any", "JSON"} and not wrong else
+             "%s() is taken for %s%s — expected Any and JSON" % (pick, sorted(kinds), "; also calls %s()" % other if wrong else ""))
+        nones = set()
+        for i, j, st in fn.stmts():
+            ag = st["rv"].get("agg") if isinstance(st["rv"], dict) else None
+            if ag and ag.get("variant") == "None" and str(ag.get("adt", "")).endswith("option::Option") and st["dst"] == 0:
+                ks, used = kinds_reaching(Y, fn, i, place_hint=None)
+                if used:
+                    nones |= ks
+        R.ob(rid, fn, "none-kinds", nones == {"Deleted", "Format"}, "answers None for %s" % sorted(nones))
